@@ -22,7 +22,7 @@ FLOORS = {"quick": {"add": 100000, "subtract": 50000, "add_timedelta": 20000, "s
                        "closest": 200000, "farthest": 200000, "inverse": 500000, "operators": 500000}}
 REQUIRED_HOOKS = ["Time.add", "Time.subtract", "Time.add_timedelta", "Time.subtract_timedelta", "Time.diff", "Time.closest",
                   "Time.farthest"]
-TECHNIQUE = "runtime contracts on Time.add/subtract/timedelta paths/diff/closest/farthest against an integer-microsecond modulo-24h oracle"
+TECHNIQUE = "runtime contracts on Time.add/subtract/timedelta paths/diff/closest/farthest against an integer-microsecond modulo-24h oracle; Duration/Interval operands"
 LEVEL_TEXT = ("every observed Time arithmetic call is judged against integer microseconds modulo 86 400 000 000; boundary times, "
               "multi-day mixed-sign amounts and all pairs in a window for diff with non-zero microseconds; held on what was observed")
 RULE = ("times: 00:00:00.000000, 23:59:59.999999, +-1us around each hour, random; amounts: mixed-sign (h, m, s, us) spanning several "
